@@ -54,7 +54,10 @@ SeedSkip ==    \* passes that only have work to do because an earlier pass of th
        [kind |-> "sub", rules |-> << R(0, <<c2>>, <<I("glyph", 4)>>, NoCon, 0) >>],
        [kind |-> "sub", rules |-> << R(0, <<4, 4>>, <<I("delete", 0), NoItem>>, NoCon, 0) >>],
        [kind |-> "pos", rules |-> << R(0, <<4>>, <<[NoItem EXCEPT !.shift = 40]>>, NoCon, 0) >>] >> : g1 \in {1, 2}, c2 \in {1, 2} }
-Seeds == SeedMarks \cup SeedChains \cup SeedRecycle \cup SeedOrder \cup SeedSkip
+SeedSigned ==  \* constraints on a glyph attribute that is negative for one glyph of the class (c carries -1): signed comparison
+  { << [kind |-> "sub", rules |-> << R(0, <<2>>, <<I("glyph", 3)>>, [kind |-> "gattr", item |-> 0, val |-> v, f |-> 0], 0),
+                                    R(0, <<2>>, <<I("glyph", 4)>>, NoCon, 0) >>] >> : v \in {-1, 0, 1} }
+Seeds == SeedMarks \cup SeedChains \cup SeedRecycle \cup SeedOrder \cup SeedSkip \cup SeedSigned
 SpecSeeded == InitSeeded(Seeds) /\ [][Next]_vars
 SpecSeededF == InitSeeded(SeedFeat) /\ [][Next]_vars
 =============================================================================
